@@ -172,6 +172,10 @@ func checkTransplant(c Transplant) error {
 
 func TestC13(t *testing.T) {
 	h := start(t, "C13", "three generators: (a) the C01 string mix offered to all four parsers, (b) the body of a valid vector transplanted under each of 16 header shapes, (c) Vector() of generated objects of every version offered to all four parsers; non-trivial = the string is accepted by exactly one parser; distinct by string")
+	if h.replaying() && h.replay.Kind == "fuzz-string" {
+		doReplay(h, "fuzz-string", checkOneVersionAndOwner)
+		return
+	}
 	n := env.Scale(150000, 300000)
 	if env.Shards > 1 {
 		n = env.Scale(150000, 1000000)
